@@ -74,12 +74,10 @@ def register(M):
 
     # ---- Rc / Box ---------------------------------------------------------------------
     def rc_new(m, a, k):
-        inner = m.ctx.resolve(a[0])
-        if isinstance(inner, Adt) and inner.ty == 'LTermInner' and m.p.enums['LTermInner'][inner.var] == 'Projection':
-            # LTerm::project overwrites this allocation in place through Rc::as_ptr and every holder of the
-            # Rc must see it: the payload lives in a shared heap cell instead of being held by value
-            return Adt('Rc', 0, (Ref(Cell(inner)),), m.ctx.new_tag())
-        return Adt('Rc', 0, (a[0],), m.ctx.new_tag())
+        # every Rc allocation is a heap cell shared by all clones of the Rc: interior mutation
+        # (LTerm::project's in-place overwrite, OnceCell, raw-pointer writes) is seen by every holder;
+        # Rc::make_mut conservatively copies (observationally equivalent to the unique case)
+        return Adt('Rc', 0, (Ref(Cell(a[0])),), m.ctx.new_tag())
 
     def box_new(m, a, k):
         return Adt('Box', 0, (a[0],))
@@ -119,14 +117,24 @@ def register(M):
         reg(t, 'AsMut', 'as_mut', rc_deref)
         reg(t, 'Clone', 'clone', lambda m, a, k: val(m, a[0]))
     reg('Rc', None, 'clone', lambda m, a, k: val(m, a[0]))
-    reg('Rc', None, 'make_mut', rc_deref)
+    def rc_make_mut(m, a, k):
+        r = innermost_ref(m, a[0])
+        rcv = load(r, m.ctx.resolve)
+        if isinstance(rcv, Adt) and rcv.fields and isinstance(rcv.fields[0], Ref):
+            cur = load(rcv.fields[0], m.ctx.resolve)
+            cell = Cell(cur)
+            store(r, Adt('Rc', 0, (Ref(cell),), rcv.tag), m.ctx.resolve)
+            return Ref(cell)
+        return Ref(r.cell, r.path + (0,))
+    reg('Rc', None, 'make_mut', rc_make_mut)
     reg('Rc', None, 'get_mut', lambda m, a, k: some(rc_deref(m, a, k)))
     reg('Rc', None, 'as_ptr', rc_deref)
     reg('Rc', None, 'ptr_eq', lambda m, a, k: val(m, a[0]).tag == val(m, a[1]).tag)
-    reg('Rc', None, 'try_unwrap', lambda m, a, k: ok(val(m, a[0]).fields[0]))
+    reg('Rc', None, 'into_inner', lambda m, a, k: some(val(m, val(m, a[0]).fields[0])))
+    reg('Rc', None, 'try_unwrap', lambda m, a, k: ok(val(m, val(m, a[0]).fields[0])))
     reg('Rc', None, 'strong_count', lambda m, a, k: (_ for _ in ()).throw(NotEncodable('Rc::strong_count')))
     reg('Box', 'Drop', 'drop', lambda m, a, k: UNIT)
-    reg('Rc', 'From', 'from', lambda m, a, k: Adt('Rc', 0, (val(m, a[0]).fields[0],), m.ctx.new_tag()) if isinstance(val(m, a[0]), Adt) and val(m, a[0]).ty == 'Box' else Adt('Rc', 0, (a[0],), m.ctx.new_tag()))
+    reg('Rc', 'From', 'from', lambda m, a, k: rc_new(m, [val(m, a[0]).fields[0]], k) if isinstance(val(m, a[0]), Adt) and val(m, a[0]).ty == 'Box' else rc_new(m, [a[0]], k))
     regp('std::mem::drop', lambda m, a, k: UNIT)
     regp('mem::drop', lambda m, a, k: UNIT)
     regp('drop', lambda m, a, k: UNIT)
@@ -401,8 +409,10 @@ def register(M):
         if isinstance(x, Adt):
             if x.ty in ('Goal', 'DFSGoal'):
                 return x.ty
-            if depth < 4:
+            if depth < 5:
                 for f in x.fields:
+                    if isinstance(f, Ref):
+                        f = m.deref_all(f)
                     if isinstance(f, (Adt,)):
                         g = goal_kind(m, f, depth + 1)
                         if g:
@@ -414,10 +424,13 @@ def register(M):
         full = ga[-1] if ga else ''
         want = type_head(full)
         r = innermost_ref(m, a[0])
-        x = val(m, r)
+        x = m.ctx.resolve(load(r, m.ctx.resolve))
         while isinstance(x, Adt) and x.ty in ('Rc', 'Box'):
-            r = Ref(r.cell, r.path + (0,))
-            x = val(m, r)
+            if x.fields and isinstance(x.fields[0], Ref):
+                r = innermost_ref(m, x.fields[0])
+            else:
+                r = Ref(r.cell, r.path + (0,))
+            x = m.ctx.resolve(load(r, m.ctx.resolve))
         if isinstance(x, Adt) and x.ty == want:
             # type arguments: only the goal kind can differ between instantiations in this crate
             mm = re.search(r'\b(DFSGoal|Goal)<', full[len(want):] if full.startswith(want) else full.split(want, 1)[-1])
